@@ -18,6 +18,8 @@ type WriteCounter struct {
 	n       int
 	crashAt int // crash right after the crashAt-th write completes (1-based); 0 = never
 	afterLabel string
+	afterN     int // die after the afterN-th write whose label has the prefix (0 or 1 = the first)
+	seenLabel  int
 	log     []string
 	dead    bool
 }
@@ -29,10 +31,10 @@ func (w *WriteCounter) Arm(crashAt int) {
 }
 
 // ArmLabel arms the counter to die after the k-th write (k > 0) or after the first write whose label starts with prefix.
-func (w *WriteCounter) ArmLabel(k int, prefix string) {
+func (w *WriteCounter) ArmLabel(k int, prefix string, nth int) {
 	w.mu.Lock()
 	defer w.mu.Unlock()
-	w.armed, w.n, w.crashAt, w.afterLabel, w.log = true, 0, k, prefix, nil
+	w.armed, w.n, w.crashAt, w.afterLabel, w.afterN, w.seenLabel, w.log = true, 0, k, prefix, nth, 0, nil
 }
 
 func (w *WriteCounter) Disarm() (int, []string) {
@@ -60,7 +62,12 @@ func (w *WriteCounter) after(label string) {
 	}
 	w.n++
 	w.log = append(w.log, label)
-	if (w.crashAt != 0 && w.n == w.crashAt) || (w.afterLabel != "" && len(label) >= len(w.afterLabel) && label[:len(w.afterLabel)] == w.afterLabel) {
+	hit := false
+	if w.afterLabel != "" && len(label) >= len(w.afterLabel) && label[:len(w.afterLabel)] == w.afterLabel {
+		w.seenLabel++
+		hit = w.seenLabel >= w.afterN
+	}
+	if (w.crashAt != 0 && w.n == w.crashAt) || hit {
 		w.dead = true
 		n := w.n
 		w.mu.Unlock()
